@@ -197,8 +197,10 @@ theorem relink_right_ne (s : St) (x y q : Nat) (h : q ≠ s.parentOf x) : ((reli
   unfold relink; repeat' split
   all_goals simp [setRight_right, h]
 theorem relink_root (s : St) (x y : Nat) : (relink s x y).root = if s.parentOf x = 0 then y else s.root := by
-  unfold relink; repeat' split
-  all_goals simp_all
+  unfold relink
+  by_cases h : s.parentOf x = 0
+  · simp only [h, if_true, setRoot_root]
+  · simp only [h, if_false]; split <;> rfl
 /-- at the parent: the child field that held `x` now holds `y`, the other one is unchanged -/
 theorem relink_at_parent (s : St) (x y : Nat) (h0 : s.parentOf x ≠ 0) (hs : s.parentOf x < s.heap.size) :
     ((relink s x y).nd (s.parentOf x)).left = (if x = (s.nd (s.parentOf x)).left then y else (s.nd (s.parentOf x)).left) ∧
